@@ -63,6 +63,9 @@ func (m *collection) runMerger() {
 	pings := []ping{}
 
 	defer func() {
+		// Also answer the pings that are still queued, or a synchronous
+		// NotifyMerger() racing with Close() would wait forever.
+		pings, _ = receivePings(m.pingMergerCh, pings, "", false)
 		replyToPings(pings)
 		pings = pings[0:0]
 	}()
